@@ -135,6 +135,50 @@ def run(c, chk):
             raise report.Broken('%s(): cursor loop over "%s" not found' % (fname, cursor))
     chk.floor('R11.3 cursor loops', nloops, 3)
 
+    # ---- R11.5: qualifiers ------------------------------------------------------------------------
+    chk.rule('R11.5', 'an index qualifier must be a whole numeral, and every step starts without an instance index (no carry-over between steps)')
+    loops = _cfg.natural_loops(sec)
+    hdr = None
+    for h in loops:
+        names = {ph.res: sec.var_names.get(ph.res) for ph in sec.blocks[h].phis()}
+        if 'name' in names.values():
+            hdr = h
+            hnames = names
+    if hdr is None:
+        raise report.Broken('cfg_getopt_secidx(): step loop not found')
+    env = {r: ('p', n or r) for r, n in hnames.items()}
+    carried = [n for n in hnames.values() if n == 'i']
+    nq = 0
+    badq = None
+    for p in ex.explore(sec, start=hdr, env=env, stop=[hdr]):
+        if p.end == 'cut':
+            continue
+        # (a) strtol result used as the instance index only when the whole qualifier was consumed
+        st_ = [e for e in p.events if e.kind == 'call' and e.name == 'strtol']
+        for e in st_:
+            used = [x for x in p.events if x.kind == 'call' and x.name == 'cfg_opt_getnsec' and sym.mentions(x.args[1], lambda v: v == e.res)]
+            if not used:
+                continue
+            nq += 1
+            endp = e.args[1]
+            whole = any(cn[0] == 'icmp' and sym.norm(cn[2]) == sym.norm(('ld', ('ld', endp))) and cn[3] == sym.C0 and ((cn[1] == 'eq') == t)
+                        for cn, t, _ in p.assume)
+            if not whole:
+                badq = (p, 'an index qualifier is used although the characters after the number were not required to be the end of the qualifier (e.g. "multi=1x" resolves like "multi=1")')
+        # (b) the instance index of this step never comes from the previous step
+        for x in p.events:
+            if x.kind == 'call' and x.name == 'cfg_opt_getnsec' and sym.mentions(x.args[1], lambda v: v == ('p', 'i')):
+                badq = (p, 'the instance index of a step is carried over from the previous step: a qualifier that fails to resolve (e.g. on a single section) reuses the earlier index')
+        for cn, t, _ in p.assume:
+            if sym.mentions(cn, lambda v: v == ('p', 'i')):
+                badq = (p, 'the instance index of a step is carried over from the previous step: a qualifier that fails to resolve (e.g. on a single section) reuses the earlier index')
+    if badq:
+        chk.fail('R11.5', 'qualifier:%s' % ('carry' if 'carried' in badq[1] else 'whole-number'), c.where(sec), 'cfg_getopt_secidx(): ' + badq[1],
+                 witness=['path condition: ' + fp.cond_text(badq[0], 6)])
+    else:
+        chk.ok('R11.5', 'cfg_getopt_secidx: qualifiers', '%d index-qualifier paths require *endptr == 0; no step reads the previous step\'s instance index' % nq, sample=True)
+    chk.floor('R11.5 index-qualifier paths', nq, 1)
+
     # ---- R11.4 ------------------------------------------------------------------------------
     idx = sec.params[2].name
     n = 0
